@@ -533,7 +533,8 @@ MANIFEST = {
             "ValueError is raised exactly when an ERROR side is hit, that derivatives follow "
             "the same rule, that extension / adaptive update / bad-point filtering / mode "
             "changes preserve 'abscissae strictly increasing, range = table ends, bad rows "
-            "dropped individually', and that a file round trip reproduces the function.",
+            "dropped individually', and that a file round trip reproduces the function."
+            " An adaptive update triggered in the middle of a call (points on both sides of the table) leaves no element unwritten and ERROR still raises.",
     "note": "spline accuracy is numerical and outside; CubicSpline is a model with scipy's "
             "input checks; abscissae are reals (linspace rounding outside).",
 }
